@@ -1,9 +1,13 @@
 #!/bin/sh
-# setup: pre-warm the build cache (plain build of the checker, the checkptr build used by C08). Offline; touches only /verif/.build.
+# setup: pre-warm the build cache: plain build of the checker, the checkptr build (C08), the instrumented build (C12: overlay
+# generated from the current tree by internal/instr) and the -race build of the free-running pass (C12). Offline; touches only /verif/.build.
 cd "$(dirname "$0")" || exit 2
 export GOFLAGS=-mod=mod GOPROXY=off GOSUMDB=off GOTOOLCHAIN=local
 export GOCACHE="${GOCACHE:-$PWD/.build/gocache}"
-mkdir -p .build/C08
+mkdir -p .build/C08 .build/C12
 go build -o .build/verif-check ./cmd/verif-check || exit 1
 go build -gcflags=all=-d=checkptr -o .build/C08/verif-check-checkptr ./cmd/verif-check || exit 1
+go build -race -o .build/C12/verif-race ./cmd/verif-race || exit 1
+go run ./cmd/verif-instr /repo .build/C12/instr >/dev/null || exit 1
+go build -tags verif -overlay .build/C12/instr/overlay.json -o .build/C12/verif-check-instr ./cmd/verif-check || exit 1
 echo setup ok
